@@ -53,17 +53,23 @@ def buffered_view(rng, adocs, keys):
         bw = writing.BufferedWriter(w.ix, period=None, limit=1000)
         for k in keys[half:]:
             bw.add_document(**cworld.concrete_kwargs(adocs[k]))
+        added = list(keys)
+        if len(keys) - half >= 2 and rng.random() < 0.6:
+            # the document buffered last (or the last two) is deleted again while it is still in the buffer
+            for k in keys[-rng.choice([1, 2]):]:
+                bw.delete_by_term("key", k)
+                keys = [x for x in keys if x != k]
         s = bw.searcher()
         try:
             rd = s.reader()
-            idx = cworld.abstract_index(rd, adocs)
+            idx = cworld.abstract_index(rd, adocs, order=added)
             # (the statistics of every term have been read once before they are recorded: reading is idempotent)
             for f in cworld.TEXT_FIELDS:
                 for t in list(rd.lexicon(f)):
                     rd.term_info(f, t)
             obs = cworld.dump(rd, idx, w.schema, rng=rng, maxterms=10, columns=False, terminfo=True)
             obs.append({"kind": "flag", "path": "BufferedWriter.searcher() shows committed + buffered documents",
-                        "value": sorted(d["key"] for d in idx["docs"]) == sorted(keys)})
+                        "value": sorted(d["key"] for d in idx["docs"] if d["live"]) == sorted(keys)})
         finally:
             s.close()
         cases.append({"idx": idx, "obs": obs, "cfg": {"view": "BufferedWriter.searcher()"}, "plan": None, "adocs": adocs})
